@@ -197,4 +197,12 @@ pub fn run(run: &Run) {
     let n = run.n(60_000, 3_000_000);
     let seed = run.seed;
     crate::sup::run_cases(run, "C01", n, 100, &|idx| describe_case(&sd, seed, idx));
+    if !run.quick() {
+        // AddressSanitizer lane: the same cases replayed by a worker built with -Zsanitizer=address
+        if let Some(exe) = crate::lanes::build(run, "asan") {
+            let m = run.n(0, 60_000);
+            crate::sup::run_cases_lane(run, "C01", 0, m, 100, &|idx| describe_case(&sd, seed, idx), &crate::lanes::env_for("asan", &exe), "asan");
+            run.add("asan_lane_cases", m);
+        }
+    }
 }
